@@ -129,5 +129,65 @@ PROPS["C04"] = {
     "assumptions": ["faults are deterministic for the duration of a run"],
 }
 
+PROPS["C06"] = {
+    "jobs": [{"cmd": "c06", "shards": 32, "shards_thorough": 48}],
+    "cli": False,
+    "trusted_base": ["M7 correspondence: every run of a generated history (library in process, real sh, real file system with sentinel mtimes) vs the Lean whole-run model over the same pre-state tree: verdict, all bytes on success, executed-command markers, touch set", "direct oracles on full-tree snapshots of the real runs"],
+    "modelled": WHOLE_FILE_MODELLED,
+    "level_text": "Lean theorems: the streaming comparison of the verify sink (remaining-length counter, chunk-wise compare, rem = 0 at the end) succeeds iff the existing bytes equal the concatenation of the chunks, over any alphabet; a verify pass reports ok iff the output holds exactly the fresh bytes; opening/finishing never changes the file system; a verify pass preserves whatever the source's own temp directives and commands preserve (no write of its own); untouched paths keep their bytes. On the implementation: every tampering class of every output incl. dependency outputs, option mismatch, verdict compared with a fresh build, outputs' (inode, mtime, bytes) unchanged.",
+    "design_ref": '5 C06, 4.5',
+    "level_note": "The project-level iff (dependencies verified before dependers) rests on C02's order theorems + the M7 correspondence; the model's verify sink compares the whole output at the end, the theorem stream_compare_iff shows the streaming form is equivalent.",
+    "technique": 'Lean 4 proof (stream-compare iff, sink lemmas, world invariant of a pass) + history-based differential correspondence',
+    "assumptions": ['commands are deterministic functions of the files the domain lets them read'],
+}
+
+PROPS["C07"] = {
+    "jobs": [{"cmd": "c07", "shards": 32, "shards_thorough": 48}],
+    "cli": False,
+    "trusted_base": ["M7 correspondence: every run of a generated history (library in process, real sh, real file system with sentinel mtimes) vs the Lean whole-run model over the same pre-state tree: verdict, all bytes on success, executed-command markers, touch set", "direct oracles on full-tree snapshots of the real runs"],
+    "modelled": WHOLE_FILE_MODELLED,
+    "level_text": 'Lean theorems: a clean pass never invokes a command (the marker log is unchanged, proved via an invariant that needs no hypothesis on `run`); its line loop cannot fail whatever directive errors the source contains; it creates no file; it removes the output; a temp target with a txtpp name is refused; untouched paths keep their bytes. On the implementation: build->clean restores the exact tree snapshot, clean alone, clean twice, partially removed generated files, erroneous sources, write-escaped temp directives naming existing files.',
+    "design_ref": '5 C07',
+    "level_note": "build_then_clean_restores is checked on the implementation (snapshot equality), not yet a Lean theorem. Known finding F5 (clean does not follow dependencies) is recognised by signature: every leftover path is generated by a dependency outside clean's resolved inputs.",
+    "technique": 'Lean 4 proof (world invariant of a clean pass, totality of the clean machine) + snapshot oracle + differential correspondence',
+    "assumptions": ['the same inputs are given to build and clean'],
+}
+
+PROPS["C08"] = {
+    "jobs": [{"cmd": "c08", "shards": 32, "shards_thorough": 48}],
+    "cli": True,
+    "trusted_base": ["M7 correspondence: every run of a generated history (library in process, real sh, real file system with sentinel mtimes) vs the Lean whole-run model over the same pre-state tree: verdict, all bytes on success, executed-command markers, touch set", "direct oracles on full-tree snapshots of the real runs"],
+    "modelled": WHOLE_FILE_MODELLED,
+    "level_text": 'Lean theorems: opening an output in build mode forgets whatever the path held and two pre-states differing only there agree afterwards; a successful pass ends with exactly the fresh bytes; after a successful temp write the target holds exactly the new content whatever it held before, and an up-to-date temp file is left alone. On the implementation: every generated path pre-set independently to absent / stale / empty / truncated / cut inside a multi-byte character / random bytes / right+tail, build and needed-build, build twice, SIGKILLed CLI build followed by a rebuild; full-tree equality with the reference build.',
+    "design_ref": '5 C08',
+    "level_note": "Project-level hermeticity composes these pass-level theorems with C02's order theorem (dependency outputs are rebuilt before they are read); that composition is checked by M7, not yet proved. Crash timing is sampled (random SIGKILL delays), covered in the model by the over-approximation 'any bytes at generated paths'.",
+    "technique": 'Lean 4 proof (sink and temp-rule lemmas) + pre-state enumeration + differential correspondence',
+    "assumptions": ['generated paths hold regular files or nothing', 'commands are deterministic'],
+}
+
+PROPS["C09"] = {
+    "jobs": [{"cmd": "c09", "shards": 32, "shards_thorough": 48}],
+    "cli": False,
+    "trusted_base": ["M7 correspondence: every run of a generated history (library in process, real sh, real file system with sentinel mtimes) vs the Lean whole-run model over the same pre-state tree: verdict, all bytes on success, executed-command markers, touch set", "direct oracles on full-tree snapshots of the real runs"],
+    "modelled": WHOLE_FILE_MODELLED,
+    "level_text": "Lean theorems: in needed mode an output whose bytes are already correct is returned untouched (same file system value, same touch set), a stale or missing one is written, and verdict and bytes at every path equal those of a normal build's done; opening touches nothing; no mode rewrites a temp file whose content is already correct while stale ones end correct. On the implementation: per generated file up to date / stale (longer, shorter, same length, non-UTF-8, other) / missing, source edits that shorten the output; bytes equal a normal build in a scratch copy, (inode, mtime) preserved for correct files.",
+    "design_ref": '5 C09',
+    "level_note": 'The CLI mapping -N -> InMemoryBuild is exercised through the CLI in C13/C04 jobs; here the library mode is used.',
+    "technique": 'Lean 4 proof (needed sink = build sink on bytes, no-touch lemmas) + history-based differential correspondence',
+    "assumptions": ['commands are deterministic'],
+}
+
+PROPS["C10"] = {
+    "jobs": [{"cmd": "c10", "shards": 32, "shards_thorough": 48}],
+    "cli": False,
+    "trusted_base": ["M7 correspondence: every run of a generated history (library in process, real sh, real file system with sentinel mtimes) vs the Lean whole-run model over the same pre-state tree: verdict, all bytes on success, executed-command markers, touch set", "direct oracles on full-tree snapshots of the real runs"],
+    "modelled": WHOLE_FILE_MODELLED,
+    "level_text": "Lean theorem (frame condition of the model): after any pass in any mode, whatever the outcome, every path outside the touch set has the bytes it had before and the touch set only grows; it is extended only by writes/removals of the output path and of resolved temp targets; vocabulary commands change no file; verify's open/finish and clean's operations create nothing. The touch set is compared with real inode/mtime changes by M7, and a full-tree snapshot oracle with decoys at near-miss names checks that only outputs and temp targets change.",
+    "design_ref": '5 C10',
+    "level_note": "The statement 'touched is contained in outputs + temp targets of the processed sources' is by construction of the model's operations and checked against the implementation by the snapshot oracle; it is not stated as a separate Lean theorem over source text.",
+    "technique": 'Lean 4 proof (touch-set soundness invariant over every pass) + full-tree snapshot oracle + differential correspondence',
+    "assumptions": ['temp targets and outputs are distinct from sources and static files (domain 4.3 f)'],
+}
+
 # properties not (yet) claimed, with the reason shown in MANIFEST.not_applicable
 PENDING = {}
